@@ -248,3 +248,324 @@ def enums_and_newtypes(rep, rule, split=False):
             rep.ok(rule, key, '%s in all four methods' % want, ms['encode'].loc())
         else:
             rep.bad(rule, key, ms['encode'].loc(), '%s %s: expected ops %s, found %s' % (ti.role, ti.label, want, got))
+
+
+# ------------------------------------------------------------------------------------------------ helpers on decode bodies
+def strings_in(body, g, with_children=True):
+    out = []
+    bodies = [body] + (list(g.cg.children.get(body.id, [])) if with_children else [])
+    for b in bodies:
+        for bb in b.bbs:
+            if bb['cleanup']:
+                continue
+            for st in bb['st']:
+                r = st.get('r', {})
+                for o in [r.get('o')] + r.get('ops', []) if isinstance(r, dict) else []:
+                    if isinstance(o, dict) and 'c' in o and 'str' in o['c']:
+                        out.append(o['c']['str'])
+            t = bb['t']
+            if t['k'] == 'call':
+                for a in t['args']:
+                    if 'c' in a and 'str' in a['c']:
+                        out.append(a['c']['str'])
+    return out
+
+
+def rust_field_name(n):
+    # snake_case as heck does for simple identifiers
+    s = re.sub(r'([a-z0-9])([A-Z])', r'\1_\2', n)
+    s = re.sub(r'([A-Z]+)([A-Z][a-z])', r'\1_\2', s)
+    return s.lower()
+
+
+# ------------------------------------------------------------------------------------------------ C08
+def tolerant_reader(rep, split=False):
+    prog, g, files = load(split)
+    infos, _ = match_types(g, files)
+    unguarded = {}
+    for ti in infos:
+        if ti.role in ('enum', 'typedef'):
+            continue
+        ms = ti.methods
+        for which in ('decode', 'decode_async'):
+            lb, tab, dfl = g.decode_table(ms[which])
+            if lb is None:
+                rep.anchor_missing('G08.a', 'field loop of %s::%s' % (ti.label, which))
+                continue
+            # G08.a unknown ids are skipped with the wire type that was read
+            key = 'G08.a|%s|%s' % (ti.label, which)
+            good = False
+            for cs in dfl['skips']:
+                a = cs.arg(1)
+                if any(s[0] == 'field' and s[2] == 'field_type' for s in subexprs(a)) and any(s[0] == 'call' and s[1].endswith('read_field_begin') for s in subexprs(a)):
+                    good = True
+            if good:
+                rep.ok('G08.a', key, 'fallback arm skips the value using the wire type just read', lb.loc())
+            else:
+                rep.bad('G08.a', key, lb.loc(), '%s::%s has no fallback arm that skips an unknown field with the wire type read from the header' % (ti.label, which))
+            # G08.b every known-field arm is guarded by the declared wire type
+            want = {f.id: f for f in ti.fields}
+            for fid, arm in sorted((tab or {}).items()):
+                f = want.get(fid)
+                if f is None:
+                    continue
+                wtt = ti.F.ttype(f.ty)
+                if arm['guard'] is None:
+                    kind = 'union' if ti.role in ('union', 'result', 'exception_enum') else ti.role
+                    unguarded.setdefault((kind, which), []).append('%s#%d' % (ti.label, fid))
+                elif arm['guard'] == wtt:
+                    rep.ok('G08.b', 'G08.b|%s|%s|field %d' % (ti.label, which, fid), 'arm guarded by field_type == %s' % wtt, lb.loc())
+                else:
+                    rep.bad('G08.b', 'G08.b|%s|%s|field %d' % (ti.label, which, fid), lb.loc(), '%s::%s field %d is accepted only with wire type %s but declared %s' % (ti.label, which, fid, arm['guard'], wtt))
+        # G08.c required fields are verified after the loop, optional/default ones are not
+        if ti.role in ('struct', 'exception', 'args'):
+            for which in ('decode', 'decode_async'):
+                strs = strings_in(ms[which], g)
+                req_msgs = {m.group(1) for s in strs for m in [re.fullmatch(r'field (?:r#)?(\w+) is required', s)] if m}
+                want_req = set()
+                for f in ti.fields:
+                    is_req = f.req == 'required' or (ti.role == 'args' and f.req != 'optional')
+                    if is_req and f.default is None:
+                        want_req.add(f.name)
+                key = 'G08.c|%s|%s' % (ti.label, which)
+                got_n = {norm(x) for x in req_msgs}
+                want_n = {norm(rust_field_name(x)) for x in want_req}
+                if got_n == want_n:
+                    rep.ok('G08.c', key, 'absence is an error exactly for %s' % sorted(want_req), ms[which].loc())
+                else:
+                    rep.bad('G08.c', key, ms[which].loc(), '%s::%s reports "is required" for %s, the IDL requires (without default) %s' % (ti.label, which, sorted(req_msgs), sorted(want_req)))
+        # G08.d unions: more than one known variant / none is an error
+        if ti.role in ('union',):
+            for which in ('decode', 'decode_async'):
+                strs = strings_in(ms[which], g)
+                key = 'G08.d|%s|%s' % (ti.label, which)
+                multi = any('received multiple fields for union' in s for s in strs)
+                empty = any('received empty union' in s for s in strs)
+                if (multi or not ti.fields) and empty:
+                    rep.ok('G08.d', key, 'second variant and empty union are rejected', ms[which].loc())
+                else:
+                    rep.bad('G08.d', key, ms[which].loc(), 'union %s::%s: multiple-variant rejection=%s, empty-union rejection=%s' % (ti.label, which, multi, empty))
+        if ti.role == 'result':
+            for which in ('decode', 'decode_async'):
+                strs = strings_in(ms[which], g)
+                key = 'G08.d|%s|%s' % (ti.label, which)
+                void = not any(f.id == 0 for f in ti.fields)
+                empty_err = any('received empty union' in s for s in strs)
+                if void and not empty_err:
+                    rep.ok('G08.d', key, 'void method: an empty reply means success', ms[which].loc())
+                elif (not void) and empty_err:
+                    rep.ok('G08.d', key, 'non-void method: an empty reply is an error', ms[which].loc())
+                else:
+                    rep.bad('G08.d', key, ms[which].loc(), 'result %s::%s: method is %svoid but empty reply %s an error' % (ti.label, which, '' if void else 'not ', 'is' if empty_err else 'is not'))
+    for (kind, which), lst in sorted(unguarded.items()):
+        key = 'G08.b|generated|%s arm without wire-type guard|%s' % (kind, which)
+        rep.bad('G08.b', key, '', 'generated %s decoders (%s) accept a known field id with ANY wire type (no `field_type == T` guard): a retyped field is decoded as the wrong type instead of being skipped (%d arms, e.g. %s)' % (kind, which, len(lst), lst[:4]))
+    # G08.e enums are open: From<i32> is unconditional and decode goes through it
+    for b in prog.bodies.values():
+        if b.crate == 'vgen' and b.name == 'from' and (b.raw.get('impl_trait_full') or '').endswith('std::convert::From<i32>>'):
+            key = 'G08.e|%s' % (b.impl_self or '').split('::', 1)[-1]
+            branches = [bb for bb in b.bbs if bb['t']['k'] == 'switch' and not bb['cleanup']]
+            if not branches and not b.calls():
+                rep.ok('G08.e', key, 'From<i32> wraps any number (open enum)', b.loc())
+            else:
+                rep.bad('G08.e', key, b.loc(), 'enum %s: From<i32> is not a plain wrapper; unknown enum numbers are no longer kept intact' % b.impl_self)
+
+
+# ------------------------------------------------------------------------------------------------ C13
+def keep_unknown(rep, split=False):
+    prog, g, files = load(split)
+    infos, _ = match_types(g, files)
+    none_sites = {}
+    union_unknown = []
+    for ti in infos:
+        if ti.mode != 'k' or ti.role in ('enum', 'typedef'):
+            continue
+        ms = ti.methods
+        dec = ms['decode']
+        lb, tab, dfl = g.decode_table(dec)
+        if lb is None:
+            continue
+        retains = any(ld.get('n') == '_unknown_fields' for x in [dec, lb] for ld in x.locals) or \
+            any(st.get('r', {}).get('k') == 'agg' and st['r']['kind'].endswith('::_UnknownFields') for x in [dec, lb] for bb in x.bbs for st in bb['st'])
+        key = 'G13.f|%s|retains' % ti.label
+        if ti.role in ('struct', 'union', 'exception'):
+            if retains:
+                rep.ok('G13.f', key, 'declared type carries _unknown_fields in keep mode', dec.loc())
+            else:
+                rep.bad('G13.f', key, dec.loc(), 'type %s of a file compiled with keep_unknown_fields does not retain unknown fields' % ti.label)
+        if not retains:
+            continue
+        calls = lb.calls()
+        gb = [cs for cs in calls if cs.name == 'get_bytes']
+        ptrs = [cs for cs in calls if cs.name == 'as_ptr']
+        rfb = [cs for cs in calls if cs.name == 'read_field_begin']
+        skips = [cs for cs in calls if cs.name == 'skip']
+        key = 'G13.a|%s' % ti.label
+        problems = []
+        some_gb = []
+        for cs in gb:
+            a = strip_refs(cs.arg(1))
+            if a[0] == 'agg' and a[1].endswith('Option::Some'):
+                some_gb.append(cs)
+            else:
+                none_sites.setdefault(ti.role if ti.role != 'struct' else 'struct used as argument', []).append(ti.label)
+        if not rfb or not ptrs or not some_gb or not skips:
+            problems.append('missing begin pointer / skip / get_bytes(Some(ptr), offset) in the field loop')
+        else:
+            if not any(lb.dominates(p.bb, rfb[0].bb) and p.bb != rfb[0].bb for p in ptrs):
+                problems.append('the begin pointer is not taken before read_field_begin')
+            for cs in some_gb:
+                if not any(lb.dominates(s.bb, cs.bb) for s in skips):
+                    problems.append('get_bytes is not preceded by skip in the fallback arm')
+                # offset = field_begin_len(..) + skip(..): both results are added to the offset local
+                adds = set()
+                for bi, bb in enumerate(lb.bbs):
+                    for st in bb['st']:
+                        r = st.get('r', {})
+                        if r.get('k') == 'bin' and r['op'] in ('Add', 'AddWithOverflow'):
+                            for o in (r['a'], r['b']):
+                                e = lb.expr_op(o)
+                                for s in subexprs(e):
+                                    if s[0] == 'call':
+                                        adds.add(s[1].split('::')[-1])
+                if 'field_begin_len' not in adds or 'skip' not in adds:
+                    problems.append('the retained length does not add field_begin_len and the skip result (adds: %s)' % sorted(adds))
+                ptr_arg = strip_refs(cs.arg(1))
+                if not any(s[0] == 'local' and 'begin_ptr' in str(s[2]) for s in subexprs(ptr_arg)) and not any(s[0] == 'call' and s[1].endswith('as_ptr') for s in subexprs(ptr_arg)):
+                    problems.append('get_bytes is not given the begin pointer')
+        if problems:
+            rep.bad('G13.a', key, lb.loc(), 'keep-mode decode of %s: %s' % (ti.label, '; '.join(problems)))
+        else:
+            rep.ok('G13.a', key, 'ptr before header; fallback arm: offset = field_begin_len + skip, get_bytes(Some(ptr), offset)', lb.loc())
+        # G13.b re-emission
+        enc = ms['encode']
+        names = [cs.name for x in [enc] + list(g.cg.children.get(enc.id, [])) for cs in x.calls()]
+        key = 'G13.b|%s|encode' % ti.label
+        wb = [cs for cs in enc.calls() if cs.name == 'write_bytes_without_len']
+        fs = [cs for cs in enc.calls() if cs.name == 'write_field_stop']
+        if wb and ((not fs) or any(f.bb in enc.reach_from(w.bb) for w in wb for f in fs)):
+            rep.ok('G13.b', key, 'retained chunks are written back before field_stop', enc.loc())
+        else:
+            rep.bad('G13.b', key, enc.loc(), 'keep-mode encode of %s does not write the retained chunks (write_bytes_without_len) before the stop field' % ti.label)
+        sz = ms['size']
+        snames = [cs.callee for x in [sz] + list(g.cg.children.get(sz.id, [])) for cs in x.calls()]
+        key = 'G13.b|%s|size' % ti.label
+        if any(n.endswith('LinkedBytes::size') or n.endswith('linkedbytes::LinkedBytes::size') for n in snames) or any('LinkedBytes' in n and n.endswith('::size') for n in snames) or any(n.endswith('::size') and 'LinkedBytes' in n for n in snames):
+            rep.ok('G13.b', key, 'size() adds the retained bytes', sz.loc())
+        else:
+            # union: size of the _UnknownFields variant
+            if any('LinkedBytes' in n for n in snames):
+                rep.ok('G13.b', key, 'size() accounts for the retained bytes', sz.loc())
+            else:
+                rep.bad('G13.b', key, sz.loc(), 'keep-mode size of %s does not add the retained bytes' % ti.label)
+        # unions: an unknown field must not take part in the single-variant rule
+        if ti.role in ('union', 'result', 'exception_enum'):
+            # in the fallback region: constructing the "multiple fields" error means unknown fields count as a variant
+            if dfl['skips']:
+                sk = dfl['skips'][0]
+                reach = lb.reach_from(sk.bb)
+                # strings constructed in blocks dominated by the skip block
+                bad = False
+                for bi in reach:
+                    if not lb.dominates(sk.bb, bi):
+                        continue
+                    for st in lb.bbs[bi]['st']:
+                        pass
+                    t = lb.bbs[bi]['t']
+                    if t['k'] == 'call':
+                        for a in t['args']:
+                            if 'c' in a and 'str' in a['c'] and 'multiple fields' in a['c']['str']:
+                                bad = True
+                if bad:
+                    union_unknown.append(ti.label)
+    for kind, lst in sorted(none_sites.items()):
+        key = 'G13.c|generated|get_bytes(None, remaining - 2)|%s' % kind
+        rep.bad('G13.c', key, '', 'keep-mode decoders of %s types swallow "the rest of the buffer minus two bytes" (get_bytes(None, remaining - 2)) once every known field was seen: wrong whenever the value is not the last thing in the buffer (nested struct, list element, argument wrapper), and remaining - 2 underflows on short input (%d types, e.g. %s)' % (kind, len(set(lst)), sorted(set(lst))[:4]))
+    if union_unknown:
+        key = 'G13.d|generated|unknown field counts as a union variant'
+        rep.bad('G13.d', key, '', 'keep-mode union decoders treat an unknown field as a variant: an unknown field next to a known variant yields "received multiple fields" although the same bytes decode fine without retention (%d unions, e.g. %s)' % (len(union_unknown), union_unknown[:4]))
+    # known fields decode identically with and without retention: same decode tables n_ vs k_
+    by = {}
+    for ti in infos:
+        by.setdefault((ti.fname, ti.short), {})[ti.mode] = ti
+    for (fname, short), d in sorted(by.items()):
+        if 'n' in d and 'k' in d and d['n'].role not in ('enum', 'typedef'):
+            a, b = d['n'], d['k']
+            ta = g.decode_table(a.methods['decode'])[1] or {}
+            tb = g.decode_table(b.methods['decode'])[1] or {}
+            key = 'G13.e|%s::%s' % (fname, short)
+            sa = {i: (x['guard'], g.resolved_reads(x['reads'])) for i, x in ta.items()}
+            sb = {i: (x['guard'], g.resolved_reads(x['reads'])) for i, x in tb.items()}
+            if sa == sb:
+                rep.ok('G13.e', key, 'known-field arms identical with and without retention', a.methods['decode'].loc())
+            else:
+                rep.bad('G13.e', key, b.methods['decode'].loc(), 'retention changes how known fields of %s decode: %s vs %s' % (short, sa, sb))
+
+
+# ------------------------------------------------------------------------------------------------ C19
+LEAK = re.compile(r'std::mem::forget$|mem::ManuallyDrop::<T>::new$|std::boxed::Box::<T(, A)?>::(leak|into_raw)$|std::sync::Arc::<T(, A)?>::into_raw$|Vec::<T(, A)?>::(into_raw_parts|leak)$|String::(into_raw_parts|leak)$')
+
+
+def ownership_gap(rep, split=False):
+    """raw writes into a Vec's spare capacity adopted by a later set_len: an early exit in between leaks what was written"""
+    prog, g, files = load(split)
+    gaps = {}
+    nsites = 0
+    for b in prog.bodies.values():
+        if b.crate not in ('vgen', 'pilota'):
+            continue
+        if b.crate == 'pilota' and not (b.key.startswith('thrift::') or b.key.startswith('<thrift::') or b.key.startswith('prost::') or b.key.startswith('<prost::')):
+            continue
+        sl = [cs for cs in b.calls() if cs.name == 'set_len' and 'Vec' in cs.callee]
+        if not sl:
+            continue
+        writes = [cs for cs in b.calls() if cs.name == 'write' and 'mut_ptr' in cs.callee]
+        for w in writes:
+            nsites += 1
+            nd = w.t.get('gargs_needs_drop') or [True]
+            elem = [x for x in w.gargs if not x.startswith("'")]
+            elem = elem[0] if elem else '?'
+            # an early exit between the write loop and set_len: the value written comes from a `?`
+            val = w.arg(1) if len(w.t['args']) > 1 else ('unknown',)
+            fallible = any(s[0] == 'try' for s in subexprs(val))
+            adopted = any(b.dominates(w.bb, s.bb) or s.bb in b.reach_from(w.bb) for s in sl)
+            if not adopted:
+                continue
+            kind = 'needs_drop' if any(nd) else 'plain'
+            where = 'generated' if b.crate == 'vgen' else b.key
+            if fallible and kind == 'needs_drop':
+                gaps.setdefault((where, 'needs_drop'), []).append((b.key, elem))
+            else:
+                rep.ok('R19.a', 'R19.a|%s|spare-capacity write|%s' % (where if where != 'generated' else 'generated', 'plain elements' if kind == 'plain' else 'infallible'),
+                       'elements written before set_len own no heap memory (%s) or cannot fail' % elem, b.loc(w.ln))
+    for (where, kind), lst in sorted(gaps.items()):
+        key = 'R19.a|%s|list decode writes owning elements into spare capacity before set_len' % where
+        elems = sorted({mirlib.short(e) for _, e in lst})
+        rep.bad('R19.a', key, '', 'sync list decoders write each decoded element with ptr.offset(i).write(read?) and only adopt them with set_len after the loop: when element k fails, elements 0..k-1 are never dropped (%d sites; element types owning memory e.g. %s)' % (len(lst), elems[:5]))
+    if nsites < 10:
+        rep.anchor_missing('R19.a', 'spare-capacity write sites (found %d)' % nsites)
+    # R19.b who may release ownership without dropping, in decoder code
+    n = 0
+    for b in prog.bodies.values():
+        if b.crate not in ('vgen', 'pilota'):
+            continue
+        for cs in b.calls():
+            if LEAK.search(cs.callee):
+                n += 1
+                key = 'R19.b|%s|%s' % (b.id if b.crate == 'pilota' else 'generated', mirlib.short(cs.callee))
+                if b.key == 'prost::encoding::string::merge' and cs.name == 'forget':
+                    # only on the success path: dominated by the Ok arm of from_utf8
+                    ok = False
+                    for cond, val, sbb, tb in b.edge_guards(cs.bb):
+                        if cond[0] == 'discr' and any(s[0] == 'call' and s[1].endswith('from_utf8') for s in subexprs(cond)) and val == 0:
+                            ok = True
+                    if ok:
+                        rep.ok('R19.b', key, 'drop guard forgotten only on the Ok arm of the UTF-8 check', cs.loc())
+                    else:
+                        rep.bad('R19.b', key, cs.loc(), 'mem::forget in string::merge is not confined to the success arm of the UTF-8 check: a rejected string is leaked')
+                elif cs.callee.endswith('ManuallyDrop::<T>::new') and b.crate == 'pilota' and 'thrift' not in b.key and 'prost' not in b.key:
+                    continue
+                else:
+                    rep.bad('R19.b', key, cs.loc(), '%s releases ownership without dropping (%s) in codec code: on an error path the allocation is never freed' % (b.key, cs.callee))
+    if n < 1:
+        rep.anchor_missing('R19.b', 'mem::forget in prost string::merge')
